@@ -434,6 +434,16 @@ def handle (s : Sess) (line : Json) : Sess × Json :=
       else { st with ipT := amErase id st.ipT, ipO := amErase id st.ipO }
     ({ s with sts := upd s.sts p (forget ((s.sts.lookup p).getD {})), implSts := upd s.implSts p (forget ((s.implSts.lookup p).getD {})) },
       Json.mkObj [("i", i), ("kind", "forget")])
+  | "adopt" =>
+    -- the CALLER replaces the public cache maps of one protocol on parser `p` by a copy of those of parser `from`
+    -- (`a.ipfix_parser.templates = b.ipfix_parser.templates.clone()` …: one parser serving several exporters, a restored snapshot)
+    let p := getNatD op "p" 0
+    let q := getNatD op "from" 0
+    let adopt (dst src : PState) : PState :=
+      if getNatD op "proto" 9 == 9 then { dst with v9T := src.v9T, v9O := src.v9O } else { dst with ipT := src.ipT, ipO := src.ipO }
+    ({ s with sts := upd s.sts p (adopt ((s.sts.lookup p).getD {}) ((s.sts.lookup q).getD {})),
+              implSts := upd s.implSts p (adopt ((s.implSts.lookup p).getD {}) ((s.implSts.lookup q).getD {})) },
+      Json.mkObj [("i", i), ("kind", "adopt")])
   | "parse" =>
     if s.dead then (s, Json.mkObj [("i", i), ("kind", "skipped")]) else handleParse s i op impl (line.getObjVal? "impl2").toOption
   | "fixed_roundtrip" => (s, handleFixedRoundtrip s i op impl)
